@@ -61,17 +61,19 @@ theorem C16_device_targets_match_occ :
   · intro s e d h
     cases s <;> cases e <;> simp [directNext] at h <;> subst h <;> decide
 
-/-! ## what holds of the code as it is -/
+/-! ## what holds of the code — as it is (`fixed = codeFixed = true`, after the `fix:` commit "FairMQ
+     transitioner stops after a roll-back and sends END from the state the reset reached") and as
+     it was (`fixed = false`): the theorems are proved for both -/
 
 /-- IMAGE. Whenever the last request the transitioner issued was answered (or it issued none), the state
     `Commit` reports is exactly `FromDeviceState` of the state the device is really in — whatever
     happened to the earlier requests (refused, error state, lost), for every event, source and script,
     lenient or strict device. -/
-theorem C16_image_partial (strict : Bool) (evt : O2Event) (src : O2State) (script : List Outcome)
-    (h : lastReceived strict (runFMQ false strict evt src script) = true) :
-    imageOk o2Of (runFMQ false strict evt src script) = true := by
-  have := all_runsFMQ false strict evt src (fun r => !lastReceived strict r || imageOk o2Of r)
-    (by cases strict <;> cases evt <;> cases src <;> decide) script
+theorem C16_image_partial (fixed strict : Bool) (evt : O2Event) (src : O2State) (script : List Outcome)
+    (h : lastReceived strict (runFMQ fixed strict evt src script) = true) :
+    imageOk o2Of (runFMQ fixed strict evt src script) = true := by
+  have := all_runsFMQ fixed strict evt src (fun r => !lastReceived strict r || imageOk o2Of r)
+    (by cases fixed <;> cases strict <;> cases evt <;> cases src <;> decide) script
   simpa [h] using this
 
 /-- IMAGE, DIRECT control mode. -/
@@ -84,11 +86,11 @@ theorem C16_image_direct_partial (strict : Bool) (evt : O2Event) (src : O2State)
 
 /-- SUCCESS. For the five events fairmq.go implements, `err = nil` is returned only with the device in the
     image of the destination — for every script, including those with lost messages. -/
-theorem C16_success_partial (strict : Bool) (evt : O2Event) (src : O2State) (script : List Outcome)
+theorem C16_success_partial (fixed strict : Bool) (evt : O2Event) (src : O2State) (script : List Outcome)
     (h : implemented evt = true) :
-    successOk fmqOf (dstOf evt) (runFMQ false strict evt src script) = true := by
-  have := all_runsFMQ false strict evt src (fun r => !implemented evt || successOk fmqOf (dstOf evt) r)
-    (by cases strict <;> cases evt <;> cases src <;> decide) script
+    successOk fmqOf (dstOf evt) (runFMQ fixed strict evt src script) = true := by
+  have := all_runsFMQ fixed strict evt src (fun r => !implemented evt || successOk fmqOf (dstOf evt) r)
+    (by cases fixed <;> cases strict <;> cases evt <;> cases src <;> decide) script
   simpa [h] using this
 
 /-- SUCCESS, DIRECT control mode: unconditionally. -/
@@ -101,12 +103,12 @@ theorem C16_success_direct (strict : Bool) (evt : O2Event) (src : O2State) (scri
     it would have let the transitioner leave: if CONFIGURE / RESET / EXIT end with the device in a state
     without O² name from which its graph accepts RESET DEVICE (resp. INIT TASK), that roll-back was
     requested in that very state and the device did not perform it. -/
-theorem C16_rollback_partial (strict : Bool) (evt : O2Event) (src : O2State) (script : List Outcome)
-    (h : lastReceived strict (runFMQ false strict evt src script) = true) :
-    rollbackOk fmqDev o2Of (rollbackEvt evt) (runFMQ false strict evt src script) = true := by
-  have := all_runsFMQ false strict evt src
+theorem C16_rollback_partial (fixed strict : Bool) (evt : O2Event) (src : O2State) (script : List Outcome)
+    (h : lastReceived strict (runFMQ fixed strict evt src script) = true) :
+    rollbackOk fmqDev o2Of (rollbackEvt evt) (runFMQ fixed strict evt src script) = true := by
+  have := all_runsFMQ fixed strict evt src
     (fun r => !lastReceived strict r || rollbackOk fmqDev o2Of (rollbackEvt evt) r)
-    (by cases strict <;> cases evt <;> cases src <;> decide) script
+    (by cases fixed <;> cases strict <;> cases evt <;> cases src <;> decide) script
   simpa [h] using this
 
 /-- ROLLBACK, positive form. With a device that performs or refuses requests (no ERROR, no lost message)
@@ -115,34 +117,34 @@ theorem C16_rollback_partial (strict : Bool) (evt : O2Event) (src : O2State) (sc
     EXIT from CONFIGURED (= RESET, then END) can also end in IDLE after the completed reset, and a CONFIGURE
     whose COMPLETE INIT is refused stays in INITIALIZING DEVICE, from which the device graph offers no
     roll-back (and none is attempted). -/
-theorem C16_rollback_reaches_source (strict : Bool) (evt : O2Event) (src : O2State) (script : List Outcome)
+theorem C16_rollback_reaches_source (fixed strict : Bool) (evt : O2Event) (src : O2State) (script : List Outcome)
     (hcell : (evt = .CONFIGURE ∧ src = .STANDBY) ∨ ((evt = .RESET ∨ evt = .EXIT) ∧ src = .CONFIGURED))
-    (hcalm : calm (runFMQ false strict evt src script) = true)
-    (hrb : acceptsRollback (rollbackEvt evt) (runFMQ false strict evt src script) = true) :
-    let r := runFMQ false strict evt src script
+    (hcalm : calm (runFMQ fixed strict evt src script) = true)
+    (hrb : acceptsRollback (rollbackEvt evt) (runFMQ fixed strict evt src script) = true) :
+    let r := runFMQ fixed strict evt src script
     (r.final = fmqOf (dstOf evt) ∧ r.err = .nil) ∨ (r.final = fmqOf src ∧ r.err ≠ .nil) ∨
       (evt = .EXIT ∧ r.final = .IDLE ∧ r.err ≠ .nil) ∨
       (evt = .CONFIGURE ∧ r.final = .INITIALIZING_DEVICE ∧ r.err ≠ .nil) := by
-  have key := all_runsFMQ false strict evt src
+  have key := all_runsFMQ fixed strict evt src
     (fun r => !(calm r && acceptsRollback (rollbackEvt evt) r) ||
       (decide (r.final = fmqOf (dstOf evt) ∧ r.err = .nil) || (decide (r.final = fmqOf src ∧ r.err ≠ .nil) ||
         (decide (evt = .EXIT ∧ r.final = .IDLE ∧ r.err ≠ .nil) ||
           decide (evt = .CONFIGURE ∧ r.final = .INITIALIZING_DEVICE ∧ r.err ≠ .nil)))))
     (by
-      rcases hcell with ⟨rfl, rfl⟩ | ⟨rfl | rfl, rfl⟩ <;> cases strict <;> decide) script
+      rcases hcell with ⟨rfl, rfl⟩ | ⟨rfl | rfl, rfl⟩ <;> cases fixed <;> cases strict <;> decide) script
   simpa [hcalm, hrb] using key
 
 /-- ALL THREE CLAUSES, FAIRMQ: for an implemented event, if no request was lost and none was answered
     "state mismatch", the call satisfies the full Spec. These are exactly the classes the driver
     reports as `hyp` (`lost_reply`, `stale_src_request`, `unimplemented_event`). -/
-theorem C16_spec_partial (strict : Bool) (evt : O2Event) (src : O2State) (script : List Outcome)
+theorem C16_spec_partial (fixed strict : Bool) (evt : O2Event) (src : O2State) (script : List Outcome)
     (himpl : implemented evt = true)
-    (hstale : noStale strict (runFMQ false strict evt src script) = true)
-    (hloss : noLoss strict (runFMQ false strict evt src script) = true) :
-    specFMQ evt (runFMQ false strict evt src script) = true := by
-  have := all_runsFMQ false strict evt src
+    (hstale : noStale strict (runFMQ fixed strict evt src script) = true)
+    (hloss : noLoss strict (runFMQ fixed strict evt src script) = true) :
+    specFMQ evt (runFMQ fixed strict evt src script) = true := by
+  have := all_runsFMQ fixed strict evt src
     (fun r => !(implemented evt && noStale strict r && noLoss strict r) || specFMQ evt r)
-    (by cases strict <;> cases evt <;> cases src <;> decide) script
+    (by cases fixed <;> cases strict <;> cases evt <;> cases src <;> decide) script
   simpa [himpl, hstale, hloss] using this
 
 /-- ALL CLAUSES, DIRECT: a single verbatim request never names a stale source; if it was not lost the
@@ -175,20 +177,20 @@ theorem C16_accept_rule (ok trigExecutor sameEvent stateIsDst : Bool) :
 /-! ## what does NOT hold (full-strength statements and their refutations) -/
 
 /-- FULL image clause, as the property text has it — over every script, lost messages included. FALSE. -/
-def C16_image_full : Prop :=
+def C16_image_full (fixed : Bool) : Prop :=
   ∀ (strict : Bool) (evt : O2Event) (src : O2State) (script : List Outcome),
-    imageOk o2Of (runFMQ false strict evt src script) = true
+    imageOk o2Of (runFMQ fixed strict evt src script) = true
 
 /-- FULL roll-back clause over every script. FALSE. -/
-def C16_rollback_full : Prop :=
+def C16_rollback_full (fixed : Bool) : Prop :=
   ∀ (strict : Bool) (evt : O2Event) (src : O2State) (script : List Outcome),
-    rollbackOk fmqDev o2Of (rollbackEvt evt) (runFMQ false strict evt src script) = true
+    rollbackOk fmqDev o2Of (rollbackEvt evt) (runFMQ fixed strict evt src script) = true
 
 /-- Finding `lost_reply`: when the reply to the last request is lost `Commit` reports `""`, which is no
     state's image, while the device is in a named state (START from CONFIGURED, reply lost: the device is
     RUNNING, `""` is reported); and a lost reply in the middle of CONFIGURE leaves the device in an
     intermediate state (BOUND) that RESET DEVICE would have left, without trying. -/
-theorem C16_finding_lost_reply : ¬ C16_image_full ∧ ¬ C16_rollback_full := by
+theorem C16_finding_lost_reply : ¬ C16_image_full codeFixed ∧ ¬ C16_rollback_full codeFixed := by
   constructor
   · intro h
     have := h false .START .CONFIGURED [.replyLost]
@@ -199,10 +201,10 @@ theorem C16_finding_lost_reply : ¬ C16_image_full ∧ ¬ C16_rollback_full := b
 
 /-- FULL image clause restricted to scripts WITHOUT any transport error. Still FALSE against a strict
     device. -/
-def C16_image_noloss_full : Prop :=
+def C16_image_noloss_full (fixed : Bool) : Prop :=
   ∀ (strict : Bool) (evt : O2Event) (src : O2State) (script : List Outcome),
-    noLoss strict (runFMQ false strict evt src script) = true →
-    imageOk o2Of (runFMQ false strict evt src script) = true
+    noLoss strict (runFMQ fixed strict evt src script) = true →
+    imageOk o2Of (runFMQ fixed strict evt src script) = true
 
 /-- Finding `stale_src_request`: the transitioner itself sends requests that name a source state the
     device cannot be in — END after the implicit reset of EXIT-from-CONFIGURED still says READY, and
@@ -210,25 +212,25 @@ def C16_image_noloss_full : Prop :=
     `SrcState` (the repository's OCC plugin and OCC library do) answers with a gRPC error, so `""` is
     reported although the device is in IDLE = STANDBY and no message was lost. Witness: EXIT from
     CONFIGURED against a device that performs every request. -/
-theorem C16_finding_stale_src_request : ¬ C16_image_noloss_full := by
+theorem C16_finding_stale_src_request : ¬ C16_image_noloss_full false := by
   intro h
   have := h true .EXIT .CONFIGURED [.done, .done, .done] (by decide)
   revert this; decide
 
 /-- FULL success clause over all seven events. FALSE. -/
-def C16_success_full : Prop :=
+def C16_success_full (fixed : Bool) : Prop :=
   ∀ (strict : Bool) (evt : O2Event) (src : O2State) (script : List Outcome),
-    successOk fmqOf (dstOf evt) (runFMQ false strict evt src script) = true
+    successOk fmqOf (dstOf evt) (runFMQ fixed strict evt src script) = true
 
 /-- Finding `unimplemented_event`: GO_ERROR and RECOVER are "not implemented yet" in fairmq.go, yet
     `Commit` returns `err = nil` (and the source state) without asking the device anything: success is
     reported with the device not at the destination (GO_ERROR from RUNNING: device RUNNING, dst ERROR). -/
-theorem C16_finding_unimplemented_event : ¬ C16_success_full := by
+theorem C16_finding_unimplemented_event : ¬ C16_success_full codeFixed := by
   intro h
   have := h false .GO_ERROR .RUNNING []
   revert this; decide
 
-/-! ## the proposed repair (notes/C16.fix.patch), modelled as `fixed = true` -/
+/-! ## the repair (`fix:` commit in /repo), modelled as `fixed = true` = `codeFixed` -/
 
 /-- With the repair (return after a roll-back; END after the implicit reset names IDLE) no request ever
     names a stale source — against a strict device too — and the full Spec holds for every implemented
@@ -245,6 +247,26 @@ theorem C16_fix_sufficient (strict : Bool) (evt : O2Event) (src : O2State) (scri
   rcases this.2 with h' | h'
   · rw [hi, hl] at h'; cases h'
   · exact h'
+
+/-- **The image clause for the code as it is, in full over every script without a lost message**
+    (the statement that finding `stale_src_request` refuted for the code as it was). -/
+theorem C16_image_noloss_code : C16_image_noloss_full codeFixed := by
+  intro strict evt src script h
+  have := all_runsFMQ true strict evt src (fun r => !noLoss strict r || imageOk o2Of r)
+    (by cases strict <;> cases evt <;> cases src <;> decide) script
+  simp only [Bool.or_eq_true, Bool.not_eq_true'] at this
+  rcases this with h' | h'
+  · rw [show codeFixed = true from rfl] at h; rw [h] at h'; cases h'
+  · exact h'
+
+/-- **All three clauses for the code as it is**: for an implemented event, whenever no message is
+    lost, the full Spec holds — against lenient and strict devices — and the transitioner never
+    names a source state the device cannot be in. -/
+theorem C16_spec_code (strict : Bool) (evt : O2Event) (src : O2State) (script : List Outcome) :
+    noStale strict (runFMQ codeFixed strict evt src script) = true ∧
+    (implemented evt = true → noLoss strict (runFMQ codeFixed strict evt src script) = true →
+      specFMQ evt (runFMQ codeFixed strict evt src script) = true) :=
+  C16_fix_sufficient strict evt src script
 
 /-! ## non-vacuity -/
 
